@@ -200,3 +200,15 @@ func Map(g orb.Geometry, f func(orb.Point) orb.Point) orb.Geometry {
 	}
 	return g
 }
+
+// Scale returns a deep copy of g with every coordinate multiplied by k. For k a power of two the
+// multiplication is exact in float64, and so is every +,-,*,/ and sqrt-free comparison computed from the
+// scaled values: an operation that is equivariant under scaling must return the bit-for-bit scaled result.
+func Scale(g orb.Geometry, k float64) orb.Geometry {
+	return Map(g, func(p orb.Point) orb.Point { return orb.Point{p[0] * k, p[1] * k} })
+}
+
+// ScaleBound is Scale for a bound passed as an argument.
+func ScaleBound(b orb.Bound, k float64) orb.Bound {
+	return orb.Bound{Min: orb.Point{b.Min[0] * k, b.Min[1] * k}, Max: orb.Point{b.Max[0] * k, b.Max[1] * k}}
+}
